@@ -1,17 +1,117 @@
-import Proofs.Merkle.Levels
+import Proofs.Merkle.Honest
 /-!
 # C29 — Merkle-sum-index proofs for committed relays always verify
 
 Model: `PocketModel/Merkle/SumIndex.lean` (`x/pocketcore/types/merkle.go`, level check of
-`x/pocketcore/keeper/proof.go`).
+`x/pocketcore/keeper/proof.go`).  `H` is the hash function (blake2b-256 in the code), `post` the
+parent-hash layout (before / after the codec upgrade); every theorem holds for all `H` and both layouts.
+A leaf's *sum* is `sumFromHash (H leaf)`, the first eight bytes of its hash, little-endian.
 -/
 namespace C29
 open SumIndex
 
-/-- The level count used at verification is the exact ceiling of log₂ of the relay count. -/
+/-- The hypothesis under which the code is meant to work (DESIGN.md §5 C29): leaf sums positive
+and pairwise distinct, and the largest sum leaves room for the width-1 padding ranges below 2^64. -/
+def GoodSums (H : Bytes → Bytes) (leaves : List Bytes) : Prop :=
+  ((leaves.map H).map sumFromHash).Nodup ∧ (∀ l ∈ leaves, 0 < sumFromHash (H l)) ∧
+    ∀ l ∈ leaves, sumFromHash (H l) + (2 ^ levels leaves.length - leaves.length) < two64
+
+/-- **Every generated proof verifies.**  For every leaf list of size `2 ≤ n ≤ 2^32` (in particular
+every `n ≥ 5` the chain admits) with good sums, for both hashing eras and every index `i < n`:
+`GenerateRoot` and `GenerateProofs` succeed, the proof is for the `i`-th leaf in sorted order, and
+`Validate` with `levels n` levels returns `(true, replay = false)`. -/
+theorem proof_verifies (H : Bytes → Bytes) (post : Bool) (leaves : List Bytes)
+    (hn : 2 ≤ leaves.length) (h32 : leaves.length ≤ 2 ^ 32) (hg : GoodSums H leaves)
+    (i : Nat) (hi : i < leaves.length) :
+    ∃ root sorted p leaf, genRoot H post leaves = some (root, sorted) ∧
+      genProof H post leaves i = some (p, leaf) ∧ sorted[i]? = some leaf ∧
+      validate H post p root leaf (levels leaves.length) = some (true, false) := by
+  obtain ⟨hd, hp, hgd⟩ := hg
+  have hlen : (entries H leaves).length = leaves.length := by simp [entries]
+  have hsum : (entries H leaves).map Entry.sum = (leaves.map H).map sumFromHash := by
+    simp [entries, Entry.sum, List.map_map, Function.comp_def]
+  obtain ⟨root, sorted, p, leaf, h1, h2, h3, _, _, _, h4⟩ :=
+    proof_verifies_entries H post (entries H leaves) (by omega) (by omega) (by rw [hsum]; exact hd)
+      (by
+        intro e he
+        simp only [entries, List.mem_map] at he
+        obtain ⟨l, hl, rfl⟩ := he
+        exact hp l hl)
+      (by
+        intro e he
+        simp only [entries, List.mem_map] at he
+        obtain ⟨l, hl, rfl⟩ := he
+        rw [hlen]; exact hgd l hl)
+      (by
+        intro e he
+        simp only [entries, List.mem_map] at he
+        obtain ⟨l, hl, rfl⟩ := he
+        rfl)
+      i (by omega)
+  rw [hlen] at h4
+  exact ⟨root, sorted, p, leaf, h1, h2, h3, h4⟩
+
+/-- The statement of the property: at least five leaves. -/
+theorem proof_verifies_min5 (H : Bytes → Bytes) (post : Bool) (leaves : List Bytes)
+    (hn : 5 ≤ leaves.length) (h32 : leaves.length ≤ 2 ^ 32) (hg : GoodSums H leaves)
+    (i : Nat) (hi : i < leaves.length) :
+    ∃ root sorted p leaf, genRoot H post leaves = some (root, sorted) ∧
+      genProof H post leaves i = some (p, leaf) ∧ sorted[i]? = some leaf ∧
+      validate H post p root leaf (levels leaves.length) = some (true, false) :=
+  proof_verifies H post leaves (by omega) h32 hg i hi
+
+/-- The hypotheses are satisfiable: five leaves whose (toy) hashes have sums 1..5. -/
+example : GoodSums id [[3], [1], [5], [2], [4]] ∧ 5 ≤ ([[3], [1], [5], [2], [4]] : List Bytes).length := by
+  refine ⟨⟨by decide, by decide, by decide⟩, by decide⟩
+
+/-- The level count used at verification (`levels n`, the keeper's `⌈log₂ n⌉`) equals the tree
+depth produced by padding: the generated proof carries exactly `levels n` sibling entries, and the
+padded leaf level has `2 ^ levels n` nodes. -/
+theorem levels_matches_hashranges (H : Bytes → Bytes) (post : Bool) (leaves : List Bytes)
+    (hn : 2 ≤ leaves.length) (h32 : leaves.length ≤ 2 ^ 32) (hg : GoodSums H leaves)
+    (i : Nat) (hi : i < leaves.length) :
+    nextPowerOfTwo leaves.length = 2 ^ levels leaves.length ∧
+    ∃ p leaf, genProof H post leaves i = some (p, leaf) ∧
+      p.hashRanges.length = levels leaves.length ∧
+      validateProof H post p (match genRoot H post leaves with | some (r, _) => r | none => default) leaf
+        leaves.length = some (true, false) := by
+  obtain ⟨hd, hp, hgd⟩ := hg
+  have hlen : (entries H leaves).length = leaves.length := by simp [entries]
+  have hsum : (entries H leaves).map Entry.sum = (leaves.map H).map sumFromHash := by
+    simp [entries, Entry.sum, List.map_map, Function.comp_def]
+  obtain ⟨root, sorted, p, leaf, h1, h2, h3, _, _, h5, h4⟩ :=
+    proof_verifies_entries H post (entries H leaves) (by omega) (by omega) (by rw [hsum]; exact hd)
+      (by
+        intro e he
+        simp only [entries, List.mem_map] at he
+        obtain ⟨l, hl, rfl⟩ := he
+        exact hp l hl)
+      (by
+        intro e he
+        simp only [entries, List.mem_map] at he
+        obtain ⟨l, hl, rfl⟩ := he
+        rw [hlen]; exact hgd l hl)
+      (by
+        intro e he
+        simp only [entries, List.mem_map] at he
+        obtain ⟨l, hl, rfl⟩ := he
+        rfl)
+      i (by omega)
+  rw [hlen] at h4 h5
+  refine ⟨nextPowerOfTwo_eq _ (by omega) h32, p, leaf, h2, h5, ?_⟩
+  have hr : genRoot H post leaves = some (root, sorted) := h1
+  simp only [hr, validateProof, h5, ne_eq, not_true_eq_false, if_false]
+  exact h4
+
+/-- The level count is the exact ceiling of log₂ of the relay count. -/
 theorem levels_spec (n : Nat) : n ≤ 2 ^ levels n ∧ ∀ k, n ≤ 2 ^ k → levels n ≤ k :=
   ⟨le_two_pow_levels n, fun k h => levels_le_of_le_two_pow n k h⟩
 
 example : levels 5 = 3 ∧ levels 8 = 3 ∧ levels 9 = 4 ∧ levels 1100 = 11 := by decide
+
+/-- Why the size bound `n ≤ 2^32` is there: `nextPowerOfTwo` smears with shifts up to 16 only, so
+one past 2^32 it returns an odd number and `levelUp` indexes out of range (Go panic). -/
+theorem nextPowerOfTwo_fails_beyond_2_32 : nextPowerOfTwo (2 ^ 32 + 1) = 2 ^ 33 - 1 :=
+  nextPowerOfTwo_large
 
 end C29
